@@ -371,14 +371,43 @@ func (p *verifRefParser) primary() string {
 }
 
 // HarnessC04Parse: N tokens of symbolic kind.
-func HarnessC04Parse(N int) {
+func HarnessC04Parse(N int) { verifC04Parse(nil, N, nil) }
+
+// verifC04Contexts: concrete token sequences around N symbolic tokens.
+var verifC04Contexts = [][2][]TokenKind{
+	{{TokenKindIdent, TokenKindLeftBracket}, {TokenKindRightBracket}},                                                              // a[ _ ]
+	{{TokenKindIdent, TokenKindLeftParen}, {TokenKindRightParen}},                                                                  // f( _ )
+	{{TokenKindIdent, TokenKindLeftParen, TokenKindIdent, TokenKindComma}, {TokenKindRightParen}},                                  // f(a, _ )
+	{{TokenKindLeftParen}, {TokenKindRightParen, TokenKindDot, TokenKindIdent}},                                                    // ( _ ).a
+	{{TokenKindIdent, TokenKindEq}, {TokenKindAnd, TokenKindIdent}},                                                                // a == _ && b
+	{{TokenKindNot}, {TokenKindOr, TokenKindIdent}},                                                                                // ! _ || b
+	{{TokenKindIdent, TokenKindDot, TokenKindStar, TokenKindLeftBracket}, {TokenKindRightBracket}},                                 // a.*[ _ ]
+	{{TokenKindIdent, TokenKindLeftBracket, TokenKindIdent, TokenKindLeftBracket}, {TokenKindRightBracket, TokenKindRightBracket}}, // a[b[ _ ]]
+}
+
+// HarnessC04ParseIn: N symbolic tokens inside one of 8 concrete contexts (longer sentences than
+// the fully symbolic runs reach: index operands, call arguments, nesting).
+func HarnessC04ParseIn(ctx, N int) {
+	c := verifC04Contexts[ctx]
+	verifC04Parse(c[0], N, c[1])
+}
+
+func verifC04Parse(pre []TokenKind, nsym int, post []TokenKind) {
+	N := len(pre) + nsym + len(post)
 	st := &verifC04
 	st.kinds = make([]int, N)
 	st.pos, st.n = 0, N
 	for i := range st.kinds {
-		k := verifSymInt("k" + strconv.Itoa(i))
-		verifAssume(verifAnd(int(TokenKindIdent) <= k, k <= int(TokenKindComma)))
-		st.kinds[i] = k
+		switch {
+		case i < len(pre):
+			st.kinds[i] = int(pre[i])
+		case i >= len(pre)+nsym:
+			st.kinds[i] = int(post[i-len(pre)-nsym])
+		default:
+			k := verifSymInt("k" + strconv.Itoa(i-len(pre)))
+			verifAssume(verifAnd(int(TokenKindIdent) <= k, k <= int(TokenKindComma)))
+			st.kinds[i] = k
+		}
 	}
 	var lex *ExprLexer
 	if verifIsNative() {
